@@ -275,9 +275,9 @@ class Impl:
         op = self.IROperation(operation_id="op", method=self.HTTPMethod.POST, path=path, summary=None, description=None,
                               parameters=ps, request_body=rb)
         out, _, _ = self.EndpointParameterProcessor({}).process_parameters(op, self.RenderContext())
-        # the final stable sort puts required (= appended path variables) first; undo it to get the construction
-        # order.  The appended ones come from a set (hash order): canonicalised by sorting, as in Corr.C20.params_obs
-        return [p["name"] for p in out if not p["required"]] + sorted(p["name"] for p in out if p["required"])
+        # the final stable sort puts required (= appended path variables, in template order) first; undo it to get
+        # the construction order
+        return [p["name"] for p in out if not p["required"]] + [p["name"] for p in out if p["required"]]
 
     def schemas(self, raw: list) -> list | None:
         """build_schemas (loader) on flat object schemas; content of schema i is recognisable by its property p<i>"""
@@ -632,7 +632,7 @@ def _main(chk: Check, impl: Impl, replay: dict | None) -> int:
          {}, "Corr.C20.run_enum: dedup_enum = EnumGenerator member names"),
         ("ops", ops_cases, "list str * (list str * list str)", "run_ops",
          lambda c: f"({c_strs(c['input']['arg'])}, ({c_strs(c['obs'][0])}, {c_strs(c['obs'][1])}))",
-         {1: "F07a"}, "Corr.C20.run_ops: dedup_ops = _deduplicate_operation_ids_globally (once, twice)"),
+         {}, "Corr.C20.run_ops: dedup_ops = _deduplicate_operation_ids_globally (once, twice)"),
         ("params", par_cases, "((list str * option str) * list str) * list str", "run_params",
          lambda c: f"((({c_strs(c['input']['arg'][0])}, {copt(c['input']['arg'][1], cstr)}), "
                    f"{c_strs(c['input']['arg'][2])}), {c_strs(c['obs'])})",
